@@ -20,6 +20,9 @@ REC_Q = ("rec", "Q", (("p", REC_P), ("k", I64), ("f", BOOL)))
 OPT_I32 = ("opt", I32)
 OPT_P = ("opt", REC_P)
 ENUM_E = ("enum", "E", (("A", I32), ("B", U8), ("C", None), ("D", REC_P)))
+PTR_P = ("ptr", True, REC_P)
+OPT_PI = ("opt", ("ptr", True, I32))
+REC_H = ("rec", "H", (("k", I32), ("p", PTR_P), ("o", OPT_PI)))      # a struct that holds pointers
 EU_BI = ("eu", BOOL, I32)          # bool!i32
 EU_PL = ("eu", REC_P, I64)         # P!i64
 SUMS = [OPT_I32, OPT_I32, OPT_P, ENUM_E, EU_BI, EU_BI, EU_PL]
@@ -533,6 +536,78 @@ class Gen:
             ss += show()
         return ss
 
+    # ------------------------------------------------- pointers inside aggregates
+    def holder_fns(self):
+        var = lambda n: {"e": "var", "n": n}
+        blk = lambda ss, tail=NONE: {"e": "blk", "label": "", "ss": ss, "tail": tail}
+        hp = lambda auto: {"l": "deref", "p": {"e": "fld", "x": var("h"), "f": "p"}, "auto": auto}
+        hpr = lambda auto: {"e": "deref", "x": {"e": "fld", "x": var("h"), "f": "p"}, "auto": auto}
+        ho = {"e": "fld", "x": var("h"), "f": "o"}
+        k = self.int_lit(I32, self.r.randrange(2, 5))
+        # hmut :: (h: H, d: i32) -> i32 { h.p.a = h.p.a + d; if #is_variant(h.o, ^mut i32) { q := #unwrap(..); q^ = q^ * k; } h.k }
+        f1 = {"name": "hmut", "params": [{"n": "h", "ty": REC_H}, {"n": "d", "ty": I32}], "ret": I32,
+              "body": blk([{"s": "set", "l": {"l": "fld", "x": hp(True), "f": "a"},
+                            "x": {"e": "bin", "op": "add", "l": {"e": "fld", "x": hpr(True), "f": "a"}, "r": var("d")}},
+                           {"s": "if", "c": {"e": "isvar", "x": ho, "k": 1, "sty": OPT_PI},
+                            "t": blk([{"s": "let", "n": "q", "x": {"e": "unwrap", "x": ho, "k": 1, "sty": OPT_PI}, "ty": ("ptr", True, I32), "mut": False},
+                                      {"s": "set", "l": {"l": "deref", "p": var("q")},
+                                       "x": {"e": "bin", "op": "mul", "l": {"e": "deref", "x": var("q")}, "r": k}}]),
+                            "f": NONE}],
+                          {"e": "fld", "x": var("h"), "f": "k"})}
+        # pfirst :: (p: ^mut P) -> ^mut P { p }     (a pointer handed back to the caller)
+        f2 = {"name": "pfirst", "params": [{"n": "p", "ty": PTR_P}], "ret": PTR_P, "body": blk([], var("p"))}
+        return [f1, f2]
+
+    def stmt_holder(self):
+        """a struct whose members point at other variables: stores through h.p / h.o, copies of the
+        struct alias the same targets, functions that take the struct by value still write the targets"""
+        r = self.r
+        ss = []
+        pv, iv, h = self.fresh(), self.fresh(), self.fresh("h")
+        ss.append({"s": "let", "n": pv, "x": self.expr(REC_P), "ty": REC_P, "mut": True})
+        ss.append({"s": "let", "n": iv, "x": self.expr(I32), "ty": I32, "mut": True})
+        self.declare(pv, REC_P, True)
+        self.declare(iv, I32, True)
+        some = lambda: {"e": "variant", "k": 1, "sty": OPT_PI, "x": {"e": "ref", "l": {"l": "var", "n": iv}, "m": True}}
+        none = lambda: {"e": "variant", "k": 2, "sty": OPT_PI, "x": NONE}
+        ss.append({"s": "let", "n": h, "ty": REC_H, "mut": True, "x": {"e": "rec", "ty": "H", "fs": [
+            {"n": "k", "x": self.expr(I32)}, {"n": "p", "x": {"e": "ref", "l": {"l": "var", "n": pv}, "m": True}},
+            {"n": "o", "x": some() if r.random() < 0.7 else none()}]}})
+        names = [h]
+        hv = lambda n: {"e": "var", "n": n}
+        hp = lambda n, auto: {"l": "deref", "p": {"e": "fld", "x": hv(n), "f": "p"}, "auto": auto}
+
+        def show():
+            return [{"s": "print", "ty": I32, "x": {"e": "fld", "x": hv(pv), "f": "a"}},
+                    {"s": "print", "ty": U8, "x": {"e": "fld", "x": {"e": "deref", "x": {"e": "fld", "x": hv(r.choice(names)), "f": "p"}, "auto": r.random() < 0.5}, "f": "b"}},
+                    {"s": "print", "ty": I32, "x": hv(iv)}]
+        for _ in range(r.randrange(2, 5)):
+            k = r.random()
+            n = r.choice(names)
+            if k < 0.25:
+                ss.append({"s": "set", "l": {"l": "fld", "x": hp(n, r.random() < 0.5), "f": r.choice(["a"])}, "x": self.expr(I32)})
+            elif k < 0.35:
+                ss.append({"s": "set", "l": hp(n, False), "x": self.expr(REC_P)})
+            elif k < 0.5 and len(names) < 3:
+                h2 = self.fresh("h")
+                ss.append({"s": "let", "n": h2, "ty": REC_H, "mut": True, "x": hv(n)})
+                ss.append({"s": "set", "l": {"l": "fld", "x": {"l": "var", "n": h2}, "f": "k"}, "x": self.expr(I32)})
+                names.append(h2)
+                ss.append({"s": "print", "ty": I32, "x": {"e": "fld", "x": hv(n), "f": "k"}})
+            elif k < 0.7:
+                tmp = self.fresh()
+                ss.append({"s": "let", "n": tmp, "ty": I32, "mut": False, "x": {"e": "call", "f": "hmut", "args": [hv(n), self.expr(I32, 2)]}})
+                ss.append({"s": "print", "ty": I32, "x": hv(tmp)})
+            elif k < 0.8:
+                ss.append({"s": "set", "l": {"l": "fld", "x": {"l": "var", "n": n}, "f": "o"}, "x": r.choice([some, none])()})
+                ss.append({"s": "print", "ty": BOOL, "x": {"e": "isvar", "x": {"e": "fld", "x": hv(r.choice(names)), "f": "o"}, "k": 2, "sty": OPT_PI}})
+            else:
+                rp = self.fresh("q")
+                ss.append({"s": "let", "n": rp, "ty": PTR_P, "mut": False, "x": {"e": "call", "f": "pfirst", "args": [{"e": "fld", "x": hv(n), "f": "p"}]}})
+                ss.append({"s": "cset", "op": "add", "l": {"l": "fld", "x": {"l": "deref", "p": hv(rp), "auto": True}, "f": "b"}, "x": self.expr(U8)})
+            ss += show()
+        return ss
+
     def read_of(self, l):
         """the expression reading place l (built from variables only)"""
         if l["l"] == "var":
@@ -707,7 +782,7 @@ class Gen:
                 continue
             if self.ptr_helpers and not self.noprint and self.r.random() < 0.08:
                 self.budget -= 3
-                ss += self.stmt_ptr() if self.r.random() < 0.6 else self.stmt_slice()
+                ss += self.r.choice([self.stmt_ptr, self.stmt_ptr, self.stmt_slice, self.stmt_holder])()
                 continue
             ss.append(self.stmt(allow_jump))
         self.scopes.pop()
@@ -883,7 +958,7 @@ class Gen:
                 continue
             if self.ptr_helpers and not self.noprint and self.r.random() < 0.12:
                 self.budget -= 3
-                ss += self.stmt_ptr() if self.r.random() < 0.6 else self.stmt_slice()
+                ss += self.r.choice([self.stmt_ptr, self.stmt_ptr, self.stmt_slice, self.stmt_holder])()
                 continue
             ss.append(self.stmt())
         tail = self.expr(ret) if ret is not None else NONE
@@ -906,7 +981,7 @@ class Gen:
         fns.append(self.try_helper())
         fns.append(self.try_eu_helper())
         self.has_try = True
-        fns += self.ptr_helper_fns() + self.slice_helper_fns() + self.fn_value_fns() + self.vararg_fns()
+        fns += self.ptr_helper_fns() + self.slice_helper_fns() + self.fn_value_fns() + self.vararg_fns() + self.holder_fns()
         self.fn_ops = ["op_a", "op_b"]
         self.local_fns = []
         self.ptr_helpers = True
@@ -931,6 +1006,7 @@ OPS = {"add": "+", "sub": "-", "mul": "*", "and": "&", "or": "|", "xor": "~", "s
 
 PRELUDE_TYPES = ("P :: struct { a: i32, b: u8 };\nQ :: struct { p: P, k: i64, f: bool };\n"
                  "E :: enum { A: i32, B: u8, C, D: P };\nDI :: distinct i32;\n"
+                 "H :: struct { k: i32, p: ^mut P, o: ?^mut i32 };\n"
                  # a value becomes an error union by implicit conversion (here: at a return)
                  "eu_bi_ok :: (v: i32) -> bool!i32 { v }\neu_bi_err :: (e: bool) -> bool!i32 { e }\n"
                  "eu_pl_ok :: (v: i64) -> P!i64 { v }\neu_pl_err :: (e: P) -> P!i64 { e }\n")
